@@ -35,7 +35,8 @@ type Prog struct {
 	// Classify may give a divergence a more specific signature (input class) than the default one.
 	Classify func(args []uint64, compiler, interpreter string) string
 	// Expect, when set, is the generator's own model of the program: the result slots both engines must produce.
-	Expect func(args []uint64) []uint64
+	// got holds the result slots an engine produced; a partial model copies the slots it does not predict from it.
+	Expect func(args, got []uint64) []uint64
 }
 
 func (p *Prog) hash() uint64 {
